@@ -41,6 +41,14 @@ Theorem C17_additive_exact : forall l scripts sched m0,
 Proof. exact additive_exact_lemma. Qed.
 Print Assumptions C17_additive_exact.
 
+(* The form in which the correspondence check uses it: scripts given as (call, repetitions) pairs. *)
+Theorem C17_run_length_prediction : forall l rle sched m0,
+  Inv m0 -> forallb (additive_segs l) rle = true ->
+  finished (exec_all (map expand rle) m0 sched) = true ->
+  get (c_mem (exec_all (map expand rle) m0 sched)) l = wrap (get m0 l + sigma_segs l (concat rle)).
+Proof. exact run_length_prediction_lemma. Qed.
+Print Assumptions C17_run_length_prediction.
+
 (* Means.  Without a reset of mean m in the burst: count = number of adds, sum = sum of the values;
    the getter returns exactly that pair (Go divides the two as float64). *)
 Theorem C17_mean_exact : forall m scripts sched m0,
@@ -80,6 +88,11 @@ Theorem C17_gauge_exact : forall c bodies sched m0,
   /\ (finished cf = true -> live_count c (c_trace cf) (length bodies) = 0%nat).
 Proof. exact gauge_exact_lemma. Qed.
 Print Assumptions C17_gauge_exact.
+
+(* counter.decr(step) - an Add of ^uint64(step-1) - is subtraction mod 2^64, for every step. *)
+Theorem C17_decr_is_subtraction : forall x s, s < W -> wrap (wrap (x + s) + decr_arg s) = wrap x.
+Proof. exact decr_is_subtraction_lemma. Qed.
+Print Assumptions C17_decr_is_subtraction.
 
 (* The hypothesis "bodies never touch the gauge" is needed: stats.Reset() with a live worker. *)
 Theorem C17_gauge_reset_breaks :
